@@ -5,5 +5,6 @@ Open Scope N_scope.
 Definition matches_path (orig path : str) : bool :=
   str_eqb path [c_slash] || starts_with orig (path ++ [c_slash]) || str_eqb orig path.
 
-(* RestoreArgParser: path = normpath(join(curdir + "/", parsed_path)) *)
-Definition restore_scope (curdir arg : str) : str := normpath (join2 (curdir ++ [c_slash]) arg).
+(* RestoreArgParser (fixed: no "curdir/" - for the root that gave "//", which normpath keeps):
+   path = normpath(join(curdir, parsed_path)) *)
+Definition restore_scope (curdir arg : str) : str := normpath (join2 curdir arg).
